@@ -326,6 +326,20 @@ class Builder:
         (d1, n1), (d2, n2) = zoo_pair(rnd.randrange(len(TRI_ZOO)))
         return self.add("_triangle_intersection.geometric_intersect", None, [arr(n1), d1, arr(n2), d2, True])
 
+    def op_tri_lattice(self):
+        """two positively oriented degree-1 triangles with vertices on a small lattice: shared / touching / collinear
+        edges and corner incidences exercise the bookkeeping paths (unused / coincident / corner entries) whose
+        buffers are the natural place for state to leak between calls"""
+        rnd = self.rnd
+        g = rnd.choice([2, 2, 3])
+
+        def lt():
+            while True:
+                p = [(rnd.randint(0, g), rnd.randint(0, g)) for _ in range(3)]
+                if (p[1][0] - p[0][0]) * (p[2][1] - p[0][1]) - (p[2][0] - p[0][0]) * (p[1][1] - p[0][1]) > 0:
+                    return [[float(q[0]) for q in p], [float(q[1]) for q in p]]
+        return self.add("_triangle_intersection.geometric_intersect", None, [arr(lt()), 1, arr(lt()), 1, True])
+
     def params(self, k=None):
         rnd = self.rnd
         k = k or rnd.randint(1, 6)
@@ -545,7 +559,7 @@ class Builder:
         rnd = self.rnd
         h = self.heavy
         table = [(self.op_curve_intersect, 22 * h), (self.op_all_intersections, 4 * h), (self.op_tri_intersect, 12 * h),
-                 (self.op_tri_raw, 3 * h), (self.op_curve_method, 18), (self.op_tri_method, 14), (self.op_polygon, 4),
+                 (self.op_tri_raw, 3 * h), (self.op_tri_lattice, 30 * h), (self.op_curve_method, 18), (self.op_tri_method, 14), (self.op_polygon, 4),
                  (self.op_helper, 14), (self.op_repeat, 9 * h)]
         if self.speedup:
             table.append((self.op_state, 5))
